@@ -54,11 +54,13 @@ inductive Out
   | reject (why : String)   -- any other error or a (recovered) panic: no message delivered
 deriving Repr
 
-/-- observation record of `readMessage`: outcome, bytes consumed, largest buffer length requested. -/
+/-- observation record of `readMessage`: outcome, bytes consumed, largest buffer length requested,
+    largest length one `io.ReadFull` asked the connection to fill. -/
 structure Read where
   out      : Out
   consumed : Nat
   alloc    : Nat
+  maxReq   : Nat
 deriving Repr
 
 def take? (n : Nat) (l : Bytes) : Option (Bytes × Bytes) :=
@@ -99,46 +101,49 @@ def parseData (size : Nat) (pipe : List UInt8) (data : Bytes) : Except String Ms
   (rdByte "panic:codec" p9.2).bind fun p10 =>
   .ok { seq, mtype := p3.1, method := p5.1, status := st, md, codec := p10.1, body := p10.2, pipe, size }
 
-/-- last stage of `readMessage` + `Unpack`: the pipe is known; read the remaining `last - (1 + xferLen)`
-    bytes, undo the transfer pipe, parse header and body. `inpLen` = total input length. -/
+/-- last stage of `readMessage` + `Unpack`: the pipe is known and `1 + xferLen ≤ last` has been checked
+    (`unpackXfer`); read the remaining `last - (1 + xferLen)` bytes, undo the transfer pipe, parse header
+    and body. `inpLen` = total input length. The reads so far asked for 4, 1 and `xferLen` bytes. -/
 def unpackTail (reg : Registry) (size last alloc xferLen inpLen : Nat) (pipe : List UInt8) (r3 : Bytes) : Read :=
-  if last < 1 + xferLen then ⟨.reject "err:badpackage", 5 + xferLen, alloc⟩ else
+  let req := max (max 4 xferLen) (last - (1 + xferLen))
   match take? (last - (1 + xferLen)) r3 with
-  | none => ⟨.eof, inpLen, alloc⟩
+  | none => ⟨.eof, inpLen, alloc, req⟩
   | some (raw, rest) =>
     match Xfer.onUnpack reg pipe raw with
-    | none => ⟨.reject "err:xfer", 4 + last, alloc⟩
+    | none => ⟨.reject "err:xfer", 4 + last, alloc, req⟩
     | some data =>
       match parseData size pipe data with
-      | .error e => ⟨.reject e, 4 + last, alloc⟩
-      | .ok m => ⟨.ok m rest, 4 + last, alloc⟩
+      | .error e => ⟨.reject e, 4 + last, alloc, req⟩
+      | .ok m => ⟨.ok m rest, 4 + last, alloc, req⟩
 
-/-- middle stage: the transfer-pipe length byte and the filter ids (`cap` = capacity of the buffer
-    after `ChangeLen(last)`; `bb.B[:xferLen]` panics beyond it). -/
-def unpackXfer (reg : Registry) (size last cap alloc inpLen : Nat) : Bytes → Read
-  | [] => ⟨.eof, 4, alloc⟩
+/-- middle stage (`1 ≤ last` has been checked, `minus(lastSize, 1)`): the transfer-pipe length byte,
+    `minus(lastSize, xferLen)` — the filter ids must fit into what the frame announced — and only then
+    the filter ids. After `ChangeLen(last)` the buffer has length `last ≥ 1 + xferLen`, so neither
+    `bb.B[:1]` nor `bb.B[:xferLen]` can be out of range: the capacity of the pooled buffer plays no role. -/
+def unpackXfer (reg : Registry) (size last alloc inpLen : Nat) : Bytes → Read
+  | [] => ⟨.eof, 4, alloc, 4⟩
   | xl :: r2 =>
-    if cap < xl.toNat then ⟨.reject "panic:cap", 5, alloc⟩ else
+    if last - 1 < xl.toNat then ⟨.reject "err:badpackage", 5, alloc, 4⟩ else
     match take? xl.toNat r2 with
-    | none => ⟨.eof, inpLen, alloc⟩
+    | none => ⟨.eof, inpLen, alloc, max 4 xl.toNat⟩
     | some (ids, r3) =>
       match Xfer.append reg [] ids with
-      | none => ⟨.reject "err:filter", 5 + xl.toNat, alloc⟩
+      | none => ⟨.reject "err:filter", 5 + xl.toNat, alloc, max 4 xl.toNat⟩
       | some pipe => unpackTail reg size last alloc xl.toNat inpLen pipe r3
 
-/-- `rawProto.Unpack` on the input `inp` (everything that will ever arrive) with read limit
-    `limit`; `cap0` is the capacity of the pooled buffer that `AcquireByteBuffer` happened to return. -/
-def unpack (reg : Registry) (limit cap0 : Nat) (inp : Bytes) : Read :=
+/-- `rawProto.Unpack` on the input `inp` (everything that will ever arrive) with read limit `limit`:
+    4 size bytes, `SetSize` (limit), `minus(lastSize, 4)`, `ChangeLen(last)`, `minus(lastSize, 1)`,
+    then the stages above. Every check precedes the read it guards. -/
+def unpack (reg : Registry) (limit : Nat) (inp : Bytes) : Read :=
   match inp with
   | a :: b :: c :: d :: r1 =>
     let size := rdBe32 a b c d
-    if size > limit then ⟨.size, 4, 4⟩ else
-    if size < 4 then ⟨.reject "err:badpackage", 4, 4⟩ else
+    if size > limit then ⟨.size, 4, 4, 4⟩ else
+    if size < 4 then ⟨.reject "err:badpackage", 4, 4, 4⟩ else
     let last := size - 4
-    let cap := if cap0 < last then last else cap0
-    if cap < 1 then ⟨.reject "panic:cap", 4, max 4 last⟩ else
-    unpackXfer reg size last cap (max 4 last) inp.length r1
-  | _ => ⟨.eof, inp.length, 4⟩
+    if last < 1 then ⟨.reject "err:badpackage", 4, max 4 last, 4⟩ else
+    unpackXfer reg size last (max 4 last) inp.length r1
+  | _ => ⟨.eof, inp.length, 4, 4⟩
 
 end Raw
 end Teleport
@@ -147,11 +152,11 @@ namespace Teleport
 namespace Raw
 
 /-- read exactly `n` back-to-back frames. -/
-def unpackN (reg : Registry) (limit cap0 : Nat) : Nat → Bytes → Option (List Msg × Bytes)
+def unpackN (reg : Registry) (limit : Nat) : Nat → Bytes → Option (List Msg × Bytes)
   | 0, inp => some ([], inp)
   | n + 1, inp =>
-    match (unpack reg limit cap0 inp).out with
-    | .ok m rest => (unpackN reg limit cap0 n rest).map (fun r => (m :: r.1, r.2))
+    match (unpack reg limit inp).out with
+    | .ok m rest => (unpackN reg limit n rest).map (fun r => (m :: r.1, r.2))
     | _ => none
 
 end Raw
